@@ -172,12 +172,26 @@ func Not(a *Term) *Term {
 	case a.Op == "app" && a.Name == "=>" && (a.Args[0].Op == "forall" || a.Args[0].Op == "exists"):
 		// expose quantified hypotheses of a negated implication to the instantiation step
 		return And(a.Args[0], Not(a.Args[1]))
+	case a.Op == "app" && a.Name == "=>" && endsInExists(a.Args[1]):
+		// a negated goal "h ==> exists x :: P" becomes "h && forall x :: !P": the universal fact is
+		// then instantiated like any other (witness candidates from the ground terms)
+		return And(a.Args[0], Not(a.Args[1]))
 	case a.Op == "forall":
 		return Exists(a.Binds, Not(a.Args[0]))
 	case a.Op == "exists":
 		return Forall(a.Binds, Not(a.Args[0]))
 	}
 	return App("not", "Bool", a)
+}
+
+func endsInExists(t *Term) bool {
+	if t.Op == "exists" {
+		return true
+	}
+	if t.Op == "app" && t.Name == "=>" {
+		return endsInExists(t.Args[1])
+	}
+	return false
 }
 
 func And(as ...*Term) *Term {
